@@ -2,7 +2,7 @@
 (* Bounded instance of Processor for exhaustive checking (C01 C02 C03a C13 C14). *)
 EXTENDS Processor
 
-CONSTANTS MaxUpd, MaxBad, MaxLocal, MaxInbound, MaxTime, UseFourth, SetIdxs, TimeSteps
+CONSTANTS MaxUpd, MaxBad, MaxLocal, MaxInbound, MaxTime, UseFourth, SetIdxs, TimeSteps, Faults
 
 VARIABLE cnt   \* [upd, bad, loc, inb] budgets used so far (bounding only)
 
@@ -72,6 +72,7 @@ MCNext ==
     \/ \E w \in VaaUniverse : cnt.inb < MaxInbound /\ InboundVAA(w) /\ Bump("inb")
     \/ \E k \in TimeSteps : (MaxTime = 0 \/ now + k <= MaxTime) /\ DOMAIN agg # {} /\ Advance(k) /\ UNCHANGED cnt
     \/ \E L \in SUBSET LateSet : CleanupTick(L) /\ <<agg, out>>' # <<agg, {}>> /\ UNCHANGED cnt
+    \/ Faults /\ DOMAIN agg # {} /\ StoreDown /\ UNCHANGED cnt
 
 MCSpec == MCInit /\ [][MCNext]_mcvars
 
@@ -83,13 +84,13 @@ MCFairSpec == MCSpec /\ WF_mcvars(\E L \in SUBSET LateSet : CleanupTick(L) /\ UN
 Min(a, b) == IF a < b THEN a ELSE b
 AgedEntry(e) == [e EXCEPT !.first = Min(now - e.first, DoneT),
                           !.lastRetry = IF e.lastRetry = Nil THEN Nil ELSE Min(now - e.lastRetry, RetryT)]
-View == <<gs, [d \in DOMAIN agg |-> AgedEntry(agg[d])], db, loop, learned, cnt>>
+View == <<gs, [d \in DOMAIN agg |-> AgedEntry(agg[d])], db, up, loop, learned, cnt>>
 
 \* C03a as an action property: a gossip step whose message is not validly signed by a member of the
 \* applicable set changes nothing.
 InvalidObservationNoEffect ==
     [][\A o \in BadObs \cup GoodObs :
-          (~ObsValid(o) /\ Observation(o)) => UNCHANGED <<gs, agg, db, loop, now>> /\ out' = {}]_mcvars
+          (~ObsValid(o) /\ Observation(o)) => UNCHANGED <<gs, agg, db, up, loop, now>> /\ out' = {}]_mcvars
 
 \* Every aggregation entry's recorded signers are keys that were members of a learned set.
 SignersAreMembers ==
